@@ -10,11 +10,13 @@ refresh (deviation bound 1: also every hold / release of a slow reply or job; bo
 Oracle at every quiescent point: the tracker's by-script index is the exact inverse of its
 transaction set, every recorded transaction has the input script hashes / values of the outputs
 it spends and the fee that follows.  At the end: keep_synchronized is still running; after the
-next quiet refreshes the C08 oracle holds for the daemon's final state.
+next quiet refreshes the C08 oracle holds for the daemon's final state, and every script hash
+whose unconfirmed transactions differ from the view before the races has been reported as
+touched by some refresh in between.
 '''
 import itertools
 
-from vf import common, explore, mpuniverse, reorgrun, system
+from vf import chain, common, explore, mpuniverse, reorgrun, system
 from vf.common import farm, finish
 
 PROP = 'C09'
@@ -91,6 +93,8 @@ def make_system(s0):
     s.run_idle()
     s.x_final_names = tuple(s0)
     s.x_final_blocks = u.sim.blocks
+    s.x_first_names = tuple(s0)
+    s.x_reports_at_start = len(s.mp_touched_log)
     return s
 
 
@@ -134,6 +138,21 @@ def run_case(case, res):
                 failures.append((f'quiet-refresh-not-exact:{field}:{evname}',
                                  dict(script=detail['script'].hex(),
                                       **{a: b for a, b in detail.items() if a != 'script'})))
+            # every script hash whose set of unconfirmed transactions differs between the
+            # synchronised view before the races and the one after them has been reported as
+            # touched by some refresh in between (reports of aborted refreshes must carry over)
+            per0, _ = mpuniverse.mempool_reference(u, s.x_first_names, u.sim.blocks)
+            reported = set().union(*s.mp_touched_log[s.x_reports_at_start:]) \
+                if len(s.mp_touched_log) > s.x_reports_at_start else set()
+            for script in per:
+                a = {t for t, _f, _u in per0[script]['summaries']}
+                b = {t for t, _f, _u in per[script]['summaries']}
+                if a != b:
+                    res.count('touched_obligations')
+                    if chain.script_hashX(script) not in reported:
+                        failures.append((f'changed-script-never-reported-touched:{evname}',
+                                         dict(script=script.hex())))
+                        break
         res.distinct('final_states', (evname, s.x_final_names))
         return failures
 
